@@ -62,6 +62,23 @@ def lookup_arms(repo) -> Dict[str, str]:
             for st in n.body:
                 if isinstance(st, ast.Assign) and isinstance(st.targets[0], ast.Name) and isinstance(st.value, ast.Name):
                     arms[ut.split('.')[1]] = st.value.id
+    if not arms:
+        # table form: `MyEnum = TABLE.get(uType)` / `TABLE[uType]` with TABLE a module-level (or local) dict literal {Units.X: XUnit, ...}
+        mi = repo.module(P)
+        tables = {st.targets[0].id: st.value for st in list(mi.tree.body) + list(ast.walk(f.node))
+                  if isinstance(st, ast.Assign) and len(st.targets) == 1 and isinstance(st.targets[0], ast.Name) and isinstance(st.value, ast.Dict)}
+        for n in ast.walk(f.node):
+            t = None
+            if isinstance(n, ast.Call) and isinstance(n.func, ast.Attribute) and n.func.attr == 'get' and isinstance(n.func.value, ast.Name) \
+                    and len(n.args) >= 1 and (len(n.args) == 1 or (isinstance(n.args[1], ast.Constant) and n.args[1].value is None)):
+                t = n.func.value.id
+            elif isinstance(n, ast.Subscript) and isinstance(n.value, ast.Name) and isinstance(n.ctx, ast.Load):
+                t = n.value.id
+            if t in tables:
+                for k, v in zip(tables[t].keys, tables[t].values):
+                    kd = dotted_name(k) or ''
+                    if kd.startswith('Units.') and isinstance(v, ast.Name):
+                        arms[kd.split('.')[1]] = v.id
     return arms
 
 
